@@ -73,6 +73,10 @@ def families(eng, tier, seed):
     fams.append(gen_twice("fork-tiny-derives", small, tiny, "fork"))
     fams.append(gen_twice("fork-tiny-3derives", small, ["derive_all Dc", "derive_all Db", "derive_all Da", "derive_for %s => S1" % p("Inner"), "derive_for %s => S0" % p("Inner")], "fork"))
     fams.append(gen_twice("fork-tiny-3attrs", small, ["attrtok_all serde(c)", "attrtok_all serde(b)", "attrtok_all serde(a = \"1\")"], "fork"))
+    if tier == "thorough":
+        top = next(i for i, t in enumerate(reach) if t["path"][-1:] == ["Choice"]); mid, _ = restrict(reach, [top])
+        q = lambda n: "::".join(next(t["path"] for t in mid if t["path"][-1:] == [n]))
+        fams.append(gen_twice("fork-mid-derives", mid, ["derive_all Db", "derive_all Da", "derive_rec %s => R1" % q("Choice"), "derive_rec %s => R2" % q("B1"), "attrtok_for %s => zz" % q("A1")], "fork"))
     # dedup numbering under arbitrary order of the path-group map
     vs = strip_segment(C["versions"], ("v1", "v2"))
     fams.append(gen_twice("fork-dedup-versions", vs, ["derive_all D"], "fork", dedup=True))
